@@ -40,7 +40,7 @@ def dirsPgoItem (it : PgoItem) : String := s!"{it.rva}:{it.size}:{ref it.name}"
 def dirsEntry (v : View) (e : Out Entry) : String :=
   match e with
   | .ok (.codeView cv) => dirsCv v cv
-  | .ok (.dbg i) => s!"dbg(img={ref i},dt={le32 v.b i.off},len={le32 v.b (i.off + 4)},uni={byteAt v.b (i.off + 8)})"
+  | .ok (.dbg i) => s!"dbg(img={ref i},dt={miscDataType v.b i.off},len={miscLength v.b i.off},uni={miscUnicode v.b i.off})"
   | .ok (.pgo i) =>
     (match pgoItems v.b i with
      | .ok items => s!"pgo(img={ref i},[{join (items.map dirsPgoItem)}])"
@@ -153,8 +153,100 @@ def securityDump (v : View) : String :=
      | o, _, _ => outStr (fun _ => "") o) ++ spec
   | o => outStr (fun _ => "") o ++ spec
 
+/-! ### `dirs_layout`: the struct layouts the MODEL uses, observed by running its decoders
+
+Nothing below is a literal of this file: every number is computed from a definition of Model/Dirs.lean, so that the
+comparison with `size_of` / `align_of` / `offset_of!` of the current source (harness: `ops_dirs.rs:layout`) is about the
+model.  Field offsets: the lowest buffer byte an accessor's value depends on (`firstDep`); sizes, alignments and record
+strides: the `Ref`s the decoders hand out on small probe buffers; the `Type` values of `Dir::entry`: the types for which
+`dirEntry` answers through `code_view` / `dbg` / `pgo`. -/
+
+def probeZeros (n : Nat) : Bytes := Array.replicate n 0
+
+/-- the lowest byte (below 128) whose value changes what `f` reads from an all-zero buffer: the offset `f` reads at -/
+def firstDep (f : Bytes → Nat) : Nat :=
+  ((List.range 128).find? fun j => f ((probeZeros 128).set! j 0xFF) != f (probeZeros 128)).getD 999
+
+def probeView (f : Fmt) (b : Bytes) : View := ⟨⟨b, 0⟩, f, .view, 0⟩
+def refZ : Ref := ⟨0, 0, 1⟩
+
+def setBytes (b : Bytes) (off : Nat) (l : List Nat) : Bytes :=
+  (l.zipIdx).foldl (fun acc p => acc.set! (off + p.2) (UInt8.ofNat p.1)) b
+
+/-- one debug directory entry at 0 (`Type` = `ty`, `SizeOfData` 32, raw data at 32 for files and views) whose raw data
+starts with the signature `sig` and is NUL from +4 on -/
+def dbgProbe (ty : Nat) (sig : List Nat) : View :=
+  probeView .pe32 (setBytes (setBytes (probeZeros 64) 12 [ty, 0, 0, 0, 32, 0, 0, 0, 32, 0, 0, 0, 32]) 32 sig)
+
+def sigOfNat (x : Nat) : List Nat := [x % 256, x / 256 % 256, x / 65536 % 256, x / 16777216 % 256]
+
+/-- a 512-byte mapped PE32 image, `e_lfanew` 0, sixteen data directories: exception directory (one record, 12 bytes)
+at 256, debug directory (28 bytes) at 288, the record's `UnwindData` = 320, UNWIND_INFO there with one code -/
+def hdrProbe : View :=
+  let b := probeZeros 512
+  let b := setBytes b (optOff b + Fmt.offNumRva .pe32) [16]
+  let b := setBytes b (ntEnd .pe32 b + 8 * 3) [0, 1, 0, 0, 12]
+  let b := setBytes b (ntEnd .pe32 b + 8 * 6) [32, 1, 0, 0, 28]
+  let b := setBytes b (rfOff ⟨256, 12, 4⟩ 0) [0, 0, 0, 0, 0, 0, 0, 0, 64, 1]
+  probeView .pe32 (setBytes b 320 [1, 0, 1, 0])
+
+def sizeAlign : Out Ref → String
+  | .ok r => s!"{r.len}/{r.align}"
+  | o => sub (fun _ => "") o
+
+def alignOf : Out Ref → String
+  | .ok r => toString r.align
+  | o => sub (fun _ => "") o
+
+def natOf : Out Nat → Nat
+  | .ok n => n
+  | _ => 0
+
+/-- the `Type` for which `Dir::entry` takes the branch recognised by `p` (on an entry whose raw data all three decoders accept) -/
+def typeFor (p : Entry → Bool) : Nat :=
+  ((List.range 64).find? fun ty => match dirEntry (dbgProbe ty (sigOfNat sigRSDS)) 0 with
+    | .ok e => p e
+    | _ => false).getD 999
+
 def dirsLayout : String :=
-  s!"ok tls32={tlsSize .pe32}/{tlsAlign .pe32}:0:4:8:12:16:20 tls64={tlsSize .pe64}/{tlsAlign .pe64}:0:8:16:24:32:36 lc32={lcSize .pe32}/{lcAlign .pe32}:{lcOffCookie .pe32}:{lcOffTable .pe32}:{lcOffCount .pe32} lc64={lcSize .pe64}/{lcAlign .pe64}:{lcOffCookie .pe64}:{lcOffTable .pe64}:{lcOffCount .pe64} dbg=28/4:4:8:12:16:20:24:20413 cv20=16/4:{cv20OffOffset}:{cv20OffTimeDateStamp}:{cv20OffAge} cv70=24/4:{cv70OffSignature}:{cv70OffAge} misc=12/4:0:4:8 rf=12/4:0:4:8 uw=4/1:0:1:2:3 uc=2/1 cert=8/4:0:4:6 va32={Fmt.ptrSize .pe32}/4 va64={Fmt.ptrSize .pe64}/8"
+  let tls (f : Fmt) : String :=
+    let o (g : View → Ref → Nat) : Nat := firstDep fun b => g (probeView f b) refZ
+    s!"{tlsSize f}/{tlsAlign f}:{o tlsStart}:{o tlsEnd}:{o tlsIndex}:{o tlsCallBacks}:{o tlsZeroFill}:{o tlsChars}"
+  let lc (f : Fmt) : String :=
+    let o (g : View → Ref → Nat) : Nat := firstDep fun b => g (probeView f b) refZ
+    s!"{lcSize f}/{lcAlign f}:{o lcCookieVa}:{o lcTableVa}:{o lcCount}"
+  let od (g : Bytes → Nat → Nat) : Nat := firstDep fun b => g b 0
+  let dbgStride := debugEntryOff refZ 1 - debugEntryOff refZ 0
+  let types := typeFor (fun e => match e with | .codeView _ => true | _ => false) * 10000
+    + typeFor (fun e => match e with | .dbg _ => true | _ => false) * 100
+    + typeFor (fun e => match e with | .pgo _ => true | _ => false)
+  let dbg := s!"{dbgStride}/{alignOf (debugTryFrom hdrProbe)}:{od ddCharacteristics}:{od ddTimeDateStamp}:{od ddMajor}:{od ddMinor}:{od ddType}:{od ddSizeOfData}:{od ddAddressOfRawData}:{od ddPointerToRawData}:{types}"
+  let cvImage (sig : Nat) : Out Ref := codeView (dbgProbe 2 (sigOfNat sig)) 0 >>= fun cv => .ok cv.image
+  let cv20 : CodeView := .cv20 refZ refZ
+  let cv70 : CodeView := .cv70 refZ refZ
+  let optN (x : Option Nat) : Nat := x.getD 999
+  let cv20s := s!"{sizeAlign (cvImage sigNB10)}:{firstDep fun b => optN (cv20.offset b)}:{firstDep fun b => optN (cv20.timestamp b)}:{firstDep fun b => cv20.age b}"
+  let cv70s := s!"{sizeAlign (cvImage sigRSDS)}:{(cv70.guidRef.getD refZ).off}:{firstDep fun b => cv70.age b}"
+  let misc := s!"{sizeAlign (dbgEntry (dbgProbe 4 []) 0)}:{od miscDataType}:{od miscLength}:{od miscUnicode}"
+  let orf (g : Bytes → Ref → Nat → Nat) : Nat := firstDep fun b => g b refZ 0
+  let rf := s!"{rfOff refZ 1 - rfOff refZ 0}/{alignOf (excTryFrom hdrProbe)}:{orf rfBegin}:{orf rfEnd}:{orf rfUnwind}"
+  let ou (g : Bytes → Ref → Nat) : Nat := firstDep fun b => g b refZ
+  let uw := s!"{sizeAlign (unwindInfo hdrProbe ⟨256, 12, 4⟩ 0)}:{ou uwVersion}:{ou uwSizeOfProlog}:{ou uwCountOfCodes}:{ou uwFrameRegister}"
+  let uc := match unwindCodes hdrProbe ⟨320, 4, 1⟩ with
+    | .ok c => s!"{c.len / uwCountOfCodes hdrProbe.b ⟨320, 4, 1⟩}/{c.align}"
+    | o => sub (fun _ => "") o
+  let certRef : Ref := ⟨0, 16, 1⟩
+  let certData := match secCertData (probeView .pe32 (probeZeros 128)) certRef with
+    | .ok d => toString (d.off - certRef.off)
+    | o => sub (fun _ => "") o
+  let cert := s!"{sizeAlign (secImage (probeView .pe32 (probeZeros 128)) certRef)}:{ou secLength}:{ou secRevision}:{firstDep fun b => natOf (secCertType (probeView .pe32 b) certRef)}:{certData}"
+  -- a mapped image (base 0, SizeOfImage 512) whose TLS directory at 384 has a callback list of ONE pointer at 448:
+  -- the slice `callbacks` returns is one `Va`
+  let va (f : Fmt) : String :=
+    let b := setBytes (probeZeros 512) (optOff (probeZeros 512) + 56) [0, 2]
+    let b := setBytes (setBytes b (384 + 3 * f.ptrSize) [192, 1]) 448 [1]
+    sizeAlign (tlsCallbacks (probeView f b) ⟨384, 0, 1⟩)
+  s!"ok tls32={tls .pe32} tls64={tls .pe64} lc32={lc .pe32} lc64={lc .pe64} dbg={dbg} cv20={cv20s} cv70={cv70s} misc={misc} rf={rf} uw={uw} uc={uc} cert={cert} va32={va .pe32} va64={va .pe64}"
 
 /-- fused: after the history drain the iterator (`n` = number of items, so `n + 1` calls of `next` suffice), then two
 more calls must answer `None` -/
